@@ -464,14 +464,14 @@ def _check_response(ctx, out, pos, req, model, is_last, closed):
     return probs, nxt
 
 
-def check_case(ctx, reqs, case_index=None):
+def check_case(ctx, reqs, case_index=None, sync_close=False):
     models = [Model() for _ in reqs]
 
     def responder(server, request, rec):
         j = len(server.records) - 1
         run_script(ctx, request, reqs[j]["script"], models[j])
 
-    s = c18.Server("channel", responder=responder, defer=False)
+    s = c18.Server("channel", responder=responder, defer=False, sync_close=sync_close)
     try:
         s.feed(request_bytes(reqs))
         s.quiesce()
@@ -505,7 +505,7 @@ def check_case(ctx, reqs, case_index=None):
                                  {"reason": models[j].reason, "request_index": j, "consequence": problems[0][0]})]
                     break
         for key, what, detail in problems[:1]:
-            ctx.violation(key, what, dict(detail, case_index=case_index, requests=reqs, output_head=out[:800], output_len=len(out)))
+            ctx.violation(key, what, dict(detail, case_index=case_index, sync_close=sync_close, requests=reqs, output_head=out[:800], output_len=len(out)))
         if len(ctx.samples) < 3 and ctx.shard == 0 and len(out) < 500 and any(len(r["script"]) > 3 for r in reqs):
             ctx.sample({"requests": reqs, "output": out, "closed": closed})
         return problems
@@ -517,7 +517,10 @@ def run(ctx):
     refhttp.selftest()
     for i in ctx.cases(16000, 600000):
         rng = ctx.case_rng(i)
-        check_case(ctx, gen_case(rng), i)
+        sync_close = ctx.case_rng(i, "sync-close").random() < 0.3
+        if sync_close:
+            ctx.count("cases_on_sync_close_transport")
+        check_case(ctx, gen_case(rng), i, sync_close)
 
 
 def replay(ctx, w):
@@ -526,4 +529,4 @@ def replay(ctx, w):
     if i is None:
         print("replay: witness has no case index; re-run with VERIF_SEED=%s" % w.get("seed"))
         return
-    check_case(ctx, gen_case(ctx.case_rng(i)), i)
+    check_case(ctx, gen_case(ctx.case_rng(i)), i, ctx.case_rng(i, "sync-close").random() < 0.3)
